@@ -100,7 +100,7 @@ class Boom(Exception):
     """the injected exception"""
 
 
-class Hang(Exception):
+class Hang(BaseException):
     pass
 
 
